@@ -29,7 +29,17 @@ def submit (s : St) (t : TxRec) : St × String :=
 def pricedOf (toks : List String) : Option String :=
   if argI toks "gpd" 0 != 0 then some "other:illegal_gasLimit_or_gasPrice" else none
 
+/-- `more=` names further inputs; the generator only emits lists that repeat an input (with `in=` or among themselves) -/
+def repeatsInput (toks : List String) : Bool :=
+  match arg? toks "more" with
+  | none => false
+  | some m =>
+    let all := (argI toks "in" 0).toNat :: (m.splitOn ",").filterMap String.toNat?
+    all.eraseDups.length < all.length
+
 def brokenOf (toks : List String) : Option String :=
+  -- the same key image twice in one transaction (adjacent or not) is refused by the semantic check
+  if repeatsInput toks then some "keyimage" else
   -- an account output that is not a whole number of commitment units is refused by the semantic check
   if argI toks "rem" 0 != 0 then some "money" else
   match arg? toks "tamper" with
@@ -142,6 +152,20 @@ the ones above (`block` commits what the mempool holds: such a block never conta
 structure DR where
   s : St
   sts : List (List Bool) := []     -- receipt statuses (true = 1) of block h at index h - 1
+  /-- contract calls that carry value and succeed (dry-run status 1): (transaction id, sender, value).  The ledger model has no
+  contract account: the value a successful call leaves with the contract is booked on the `z` bucket (zero address +
+  contract), which the harness prints the same way -/
+  vcalls : List (Nat × Nat × Int) := []
+
+/-- book the value of the successful value-carrying calls among the transactions `ids` (with receipt statuses `sts`) -/
+def bookCalls (vcalls : List (Nat × Nat × Int)) (ids : List Nat) (sts : List Bool) (s : St) : St :=
+  (ids.zipIdx).foldl (fun acc (id, i) =>
+    match vcalls.find? (fun c => c.1 == id) with
+    | some (_, from_, v) =>
+      if sts.getD i true then
+        { acc with bal := addAt acc.bal from_ (-v), sbal := addAt acc.sbal from_ (-v), zero := acc.zero + v }
+      else acc
+    | none => acc) s
 
 /-- a block committed through the strict path (`block`): every receipt has status 1 -/
 def alignSts (sts : List (List Bool)) (s' : St) : List (List Bool) :=
@@ -157,7 +181,7 @@ def stepR (d : Option DR) (toks : List String) : Option DR × String :=
       -- after a foreign block: C15): invalidated transactions are dropped
       let s0 := { s' with pending := [], poolImgs := [] }
       let s'' := s'.pending.foldl (fun acc id => match acc.txs[id]? with | some t => (checkState acc id t).2 | none => acc) s0
-      (some { s := s'', sts := d.sts ++ [sts] }, s!"h={s'.height} txs={",".intercalate (ids.map toString)}")
+      (some { d with s := bookCalls d.vcalls ids sts s'', sts := d.sts ++ [sts] }, s!"h={s'.height} txs={",".intercalate (ids.map toString)}")
     else (some { d with s := s' }, r)
   | some d, "receipts" :: _ =>
     let s := d.s
@@ -175,7 +199,20 @@ def stepR (d : Option DR) (toks : List String) : Option DR × String :=
     let (s', a) := step (d.map (·.s)) toks
     match s' with
     | none => (none, a)
-    | some s' => (some { s := s', sts := alignSts ((d.map (·.sts)).getD []) s' }, a)
+    | some s' =>
+      let old := (d.map (·.s.blocks.length)).getD 0
+      let vc0 := (d.map (·.vcalls)).getD []
+      -- a value-carrying call that the dry run saw succeed is remembered by its transaction id
+      let vc := match toks with
+        | "call" :: _ =>
+          if argI toks "value" 0 > 0 && argI toks "st" 1 == 1 && (a.splitOn " admit=").length == 2 then
+            vc0 ++ [(s'.txs.length - 1, (argI toks "from" 0).toNat, argI toks "value" 0)]
+          else vc0
+        | "chain" :: _ => []
+        | _ => vc0
+      -- a block committed through the strict path: every receipt has status 1
+      let s'' := if s'.blocks.length > old then bookCalls vc (s'.blocks.getLast?.getD []) [] s' else s'
+      (some { s := s'', sts := alignSts ((d.map (·.sts)).getD []) s', vcalls := vc }, a)
 
 def machine : Machine := { σ := Option DR, init := none, step := stepR }
 
